@@ -191,6 +191,36 @@ def known_findings():
 
 
 # ---------------------------------------------------------------- evidence / verdict
+# Component audit: what the evidence of a run must list (substring of a tlc_runs "what", minimum count).  A check whose run did not
+# execute one of its components is an ERROR (exit 2), never a silent pass: in the second seeded round a pasted block had made the
+# sequential replay of C17 unreachable and nothing reported it.
+_CONC_MODELS = [("YkConc program", 2), ("YkConc2 config", 3), ("YkConc3 config", 4), ("YkConc4 config", 3),
+                ("step-level conformance of the root border split", 3), ("step-level conformance of border deletion", 3),
+                ("step-level conformance of split under a parent", 3), ("step-level conformance program", 2)]
+REQUIRED = {
+    "C01": _CONC_MODELS + [("linearization search", 20), ("_pair_", 2)],
+    "C02": [("exhaustive sequential model", 1), ("random walks of the sequential model", 1), ("trace seed=", 7), ("longsplit=1", 1)],
+    "C03": [("exhaustive sequential model", 1), ("trace seed=", 6), ("mode=deep", 1)],
+    "C04": [("YkConc program", 2), ("YkConc4 config", 2), ("step-level conformance program", 2), ("linearization search", 25), ("_links_", 2), ("_layerfull_pre1", 2)],
+    "C05": [("exhaustive sequential model", 1), ("mode=linksonly", 2), ("pdrain=", 1), ("ppair=", 1), ("mode=deep", 1)],
+    "C06": [("YkConc program C", 1), ("YkConc4 config", 2), ("step-level conformance program C", 1), ("linearization search", 25), ("_links_", 2)],
+    "C07": [("YkEpoch", 1), ("epoch trace", 3), ("_stall", 1)],
+    "C08": _CONC_MODELS + [("exhaustive sequential model", 1), ("trace seed=", 5), ("linearization search", 20), ("_pair_", 2), ("_chain_", 2)],
+    "C09": _CONC_MODELS + [("linearization search", 25), ("_pair_", 2), ("_chain_", 2)],
+    "C10": [("trace seed=", 6), ("linearization search", 14), ("pmod=", 2)],
+    "C11": [("YkLife", 1), ("lifecycle trace", 2), ("epoch trace", 2)],
+    "C12": [("exhaustive sequential model", 1), ("trace seed=", 4), ("mode=deep", 1)],
+    "C13": [("YkMap state machine", 1), ("trace seed=", 2), ("_ddl_", 3)],
+    "C14": [("YkEpoch", 1), ("epoch trace", 4)],
+    "C15": [("trace seed=", 2), ("linearization search", 6)],
+    "C16": [("YkLife", 1), ("lifecycle trace", 2)],
+    "C17": [("model MC_Version", 2), ("replay of", 1), ("concurrent version-word executions", 3)],
+    "C18": [("YkOrder theorems", 1), ("replay of", 1), ("mode=boundary", 1)],
+    "C19": [("YkPerm exhaustive", 1), ("replay of", 1), ("linearization search", 9)],
+    "C20": [("exhaustive sequential model", 1), ("trace seed=", 6), ("valmix=1", 2), ("ascend=", 1)],
+}
+
+
 class Check:
     """One run of one property's check: collects TLC statistics, samples, verdicts; writes evidence."""
 
@@ -251,7 +281,16 @@ class Check:
             f.write(content if isinstance(content, str) else json.dumps(content, indent=1))
         return p
 
+    def audit(self):
+        """every component the check is built from must appear in this run's evidence"""
+        whats = [r["what"] for r in self.cov.get("tlc_runs", [])]
+        for sub, n in REQUIRED.get(self.prop, []):
+            have = sum(1 for w in whats if sub in w)
+            if have < n and not self.violations:
+                self.error("component audit: %d run(s) matching '%s' in the evidence, at least %d expected (a part of the check did not run)" % (have, sub, n))
+
     def finish(self):
+        self.audit()
         wall = time.time() - self.t0
         cov = dict(self.cov)
         cov.update({"states": max(self.states, 1 if self.states else 0), "transitions": self.transitions,
